@@ -41,6 +41,7 @@ def jobs(tier, seed):
             J.append(Job('filter%d:%s:%s' % (flt, 'info' if info else 'full', '+'.join(names)), 'harness.c11', 'h_split',
                          {'msgs': names, 'info_only': info, 'filter': flt, 'sep_lengths': [0, 4] if not thorough else [0, 1, 4]},
                          timeout=3000 if thorough else 900))
+    J.append(Job('lengths:special-octets', 'harness.c11', 'h_lengths', {'n_msgs': 2}, timeout=1800, witnesses=['split']))
     J.append(Job('canary:info-advance', 'harness.c11', 'h_split', {'msgs': ['A', 'B'], 'info_only': True, 'sep_lengths': [0, 4]}, timeout=600, max_cex=1,
                  mutate='pybufrkit.decoder::                bufr_message.serialized_bytes = s[idx_start: idx_start + bufr_message.length.value]-->>                bufr_message.serialized_bytes = s[idx_start: idx_start + bufr_message.length.value - 4]'))
     J.append(Job('canary:rescan-body', 'harness.c11', 'h_split', {'msgs': ['A'], 'sep_lengths': [0]}, timeout=600, max_cex=1,
